@@ -194,7 +194,8 @@ Fixpoint split_batch (is_exp : Z -> bool) (seen : list Z) (l : list qent) : spli
    - Cut: pending = Len(); max = Current().MaxOperationCount  (the CURRENT version's limit, whatever
      version the queued operations were accepted under); not forced and pending < max -> nothing;
      Peek(min pending max); same-version prefix of the first operation's version; Remove
-   - process: protocol.Get(version of the batch); PrepareTxnFiles (split); WriteAnchor - the ledger
+   - process: protocol.Get(version of the batch); PrepareTxnFiles (split); if nothing is included (every operation
+     of the batch expired) there is no anchor string: no WriteAnchor, Ack (F16); else WriteAnchor - the ledger
      assigns time = now, the next number, a canonical reference (number + 1, never 0) and the
      protocol version according to its policy; additional operations are re-added at the TAIL under
      the batch version (= their own); Ack
@@ -215,13 +216,25 @@ Definition cut (cfg : config) (ex : list Z) (f : bool) (st : pstate) : option ps
         | None => None
         | Some _ =>
           let sp := split_batch (fun i => memZ i ex) [] batch in
-          let t := {| t_time := now st; t_num := next_num st; t_cref := next_num st + 1;
-                      t_pver := if c_by_time cfg then now st else ver; t_ops := sp_in sp |} in
-          Some {| now := now st; next_num := next_num st + 1;
-                  queue := skipn (length batch) (queue st) ++ sp_add sp;
-                  ledger := ledger st ++ [t]; store := store st; unpub := unpub st;
-                  expired := expired st ++ sp_exp sp; dropped := dropped st;
-                  accepted := accepted st |}
+          match sp_in sp with
+          | [] =>
+            (* F16: every operation of the batch has expired.  PrepareTxnFiles writes no files and returns an empty
+               anchor string; process returns before WriteAnchor (and before re-adding anything: nothing can be
+               deferred behind no included operation); the batch is Ack'ed.  No transaction, no number consumed. *)
+            Some {| now := now st; next_num := next_num st;
+                    queue := skipn (length batch) (queue st);
+                    ledger := ledger st; store := store st; unpub := unpub st;
+                    expired := expired st ++ sp_exp sp; dropped := dropped st;
+                    accepted := accepted st |}
+          | _ :: _ =>
+            let t := {| t_time := now st; t_num := next_num st; t_cref := next_num st + 1;
+                        t_pver := if c_by_time cfg then now st else ver; t_ops := sp_in sp |} in
+            Some {| now := now st; next_num := next_num st + 1;
+                    queue := skipn (length batch) (queue st) ++ sp_add sp;
+                    ledger := ledger st ++ [t]; store := store st; unpub := unpub st;
+                    expired := expired st ++ sp_exp sp; dropped := dropped st;
+                    accepted := accepted st |}
+          end
         end
       end
   end.
@@ -483,4 +496,21 @@ Example expired_stays_unpublished :
   (map qe_id (queue st), map qe_id (expired st), map (fun u => qe_id (u_q u)) (unpub st),
    short_view cfg_all_unpub st 7, short_view cfg1 (run cfg1 (init 10) expiry_events) 7)
   = ([], [2], [2], RView [101; 102] 21 30 false true, RView [101] 20 30 false true).
+Proof. vm_compute. reflexivity. Qed.
+
+(* F16: A BATCH WHOSE OPERATIONS HAVE ALL EXPIRED WRITES NO TRANSACTION.  In [expiry_events] the second flush cuts
+   the batch [2], which the handler finds expired: the operation is discarded, the ledger receives nothing and no
+   transaction number is consumed (before the repair the writer anchored "0.<uri>", which no observer can parse). *)
+Example all_expired_batch_writes_no_transaction :
+  let st := run cfg1 (init 10) [ESubmit ex_create 5000; EFlush true []; EObserve; ESubmit ex_update 5001; ETime 200;
+                                EFlush true [2]] in
+  (map qe_id (queue st), length (ledger st), next_num st, map qe_id (expired st)) = ([], 0%nat, 1, [2]).
+Proof. vm_compute. reflexivity. Qed.
+
+(* a partly expired batch: the expired operation is discarded, the other one anchored *)
+Example partly_expired_batch :
+  let st := run cfg1_wide (init 10) [ESubmit ex_create 5000; EFlush true []; EObserve; ESubmit ex_update 5001;
+                                     ESubmit (xreq 8 9 Create 0 109 40 50) 5002; ETime 200; EFlush true [2]] in
+  (map qe_id (queue st), map (fun t => (t_num t, map qe_id (t_ops t))) (ledger st), next_num st, map qe_id (expired st))
+  = ([], [(1, [9])], 2, [2]).
 Proof. vm_compute. reflexivity. Qed.
